@@ -13,17 +13,19 @@
 (*     NEAR MISSES are single abstract edits of a value (Edit), INVALID    *)
 (*     texts are corruptions of a rendering (Corrupt).  TLC enumerates     *)
 (*     the state space  value -> edited value -> rendering -> corruption   *)
-(*     (module MC_ReconCompare dumps it); the check joins the tokens to    *)
+(*     (module Gen_ReconCompare dumps it); the check joins the tokens to    *)
 (*     text, adds the output of the three real printers, and the harness   *)
 (*     observes compare_recon_values, recon_hash, parse + Value::eq.       *)
 (*                                                                         *)
 (*  P  PROPERTY.  The laws of the statement over the observed pair table   *)
-(*     (module Laws_ReconCompare evaluates them with TLC).                 *)
+(*     (module MC_ReconCompare evaluates them with TLC).                 *)
 (*                                                                         *)
 (*  M  MECHANISM.  What the implementation is meant to compute:            *)
 (*     NormalForm(v)  - the value up to Value::eq (the sign of a float     *)
-(*                      zero is not observable); compare and parse-eq      *)
-(*                      agree with equality of normal forms;               *)
+(*                      zero is not observable): parse + Value::eq;        *)
+(*     CoarseForm(v)  - what compare_recon_values can tell apart (it does  *)
+(*                      not see where a nested attribute-less record       *)
+(*                      starts among the items before it);                 *)
 (*     HashEvents(v, style) - the event stream HashParser feeds to the     *)
 (*                      hasher: numbers normalised (one key per number),   *)
 (*                      floats by bit pattern, and StartBody / EndRecord   *)
@@ -49,15 +51,18 @@ VItem(v) == [slot |-> FALSE, key |-> None, val |-> v]
 SItem(k, v) == [slot |-> TRUE, key |-> k, val |-> v]        \* v = Leaf("ext"): `k:`
 
 N1 == Leaf("n1")
+\* the values slots can have in base values
+SlotVals == {Leaf("n1"), Leaf("ta"), Rec(<<>>, <<VItem(Leaf("n1")), VItem(Leaf("ta"))>>)} \cup
+            (IF Wide THEN {Rec(<<>>, <<>>), Rec(<<Attr("b", None)>>, <<>>)} ELSE {})
 TA == Leaf("ta")
 Ext == Leaf("ext")
 \* generic leaves used to build structure; special leaves are put in by edits
 Generic == {N1, TA}
-SpecialLeafIds == IF Wide THEN {"n2", "nbig", "f0", "fneg0", "fh", "tb", "tsp", "tcomma", "tcolon", "tclose", "topen", "tbrace", "bt", "blob"}
-                          ELSE {"n2", "f0", "fneg0", "tsp", "tcomma", "tclose", "topen", "bt"}
+SpecialLeafIds == IF Wide THEN {"n2", "nbig", "f0", "fneg0", "tb", "tcomma", "tcolon", "tclose", "topen", "tbrace", "blob"}
+                          ELSE {"n2", "f0", "fneg0", "tcomma", "tclose", "topen"}
 LeafIds == {"n1", "ta", "ext"} \cup SpecialLeafIds
 
-Items1(X) == {VItem(x) : x \in X} \cup {SItem(k, x) : k \in Generic, x \in X \cup {Ext}}
+Items1(X) == {VItem(x) : x \in X} \cup {SItem(k, x) : k \in Generic, x \in (X \cap SlotVals) \cup {Ext}}
 SeqUpTo2(S) == {<<>>} \cup {<<a>> : a \in S} \cup {<<a, b>> : a, b \in S}
 AttrOpts(X) == {<<>>} \cup {<<Attr("a", b)>> : b \in X \cup {None}}
 RecsOver(X) == {Rec(as, is) : as \in AttrOpts(X), is \in SeqUpTo2(Items1(X))}
@@ -71,8 +76,6 @@ CompQuick == {N1, TA, E0,
               Rec(<<Attr("b", Rec(<<>>, <<VItem(N1), VItem(TA)>>))>>, <<>>)}
 CompWide == CompQuick \cup
              {Rec(<<>>, <<SItem(TA, N1)>>),
-              Rec(<<Attr("b", N1)>>, <<>>),
-              Rec(<<Attr("b", None)>>, <<VItem(N1)>>),
               Rec(<<>>, <<VItem(Rec(<<>>, <<VItem(N1)>>))>>)}
 Comp == IF Wide THEN CompWide ELSE CompQuick
 
@@ -157,9 +160,18 @@ DeepEdits(x) ==
          \cup UNION {{Rec(x.attrs, ReplaceAt(x.items, i, [x.items[i] EXCEPT !.val = w])) : w \in TopEdits(x.items[i].val)}
                   : i \in {j \in 1..Len(x.items) : IsRec(x.items[j].val)}}
 
-LeafEdits(x) == {ReplaceLeaf(x, n, Leaf(id)) : n \in 1..NumLeaves(x), id \in SpecialLeafIds \cup {"n1", "ta"}}
+\* quick scope: the first and the last leaf only
+LeafPositions(x) == IF Wide THEN 1..NumLeaves(x) ELSE {1, NumLeaves(x)} \cap (1..NumLeaves(x))
+LeafEdits(x) == {ReplaceLeaf(x, n, Leaf(id)) : n \in LeafPositions(x), id \in SpecialLeafIds \cup {"n1", "ta"}}
 
-Edits(x) == (TopEdits(x) \cup DeepEdits(x) \cup LeafEdits(x)) \ {x}
+\* "nothing" can only be written as the value of a slot (`k:`)
+RECURSIVE WF(_)
+WF(x) == CASE x.t = "leaf" -> x # Ext
+           [] x.t = "rec" -> /\ \A k \in 1..Len(x.attrs) : x.attrs[k].body = None \/ WF(x.attrs[k].body)
+                             /\ \A k \in 1..Len(x.items) : /\ (x.items[k].slot => WF(x.items[k].key))
+                                                            /\ ((x.items[k].slot /\ x.items[k].val = Ext) \/ WF(x.items[k].val))
+           [] OTHER -> FALSE
+Edits(x) == {w \in (TopEdits(x) \cup DeepEdits(x) \cup LeafEdits(x)) \ {x} : WF(w)}
 
 -----------------------------------------------------------------------------
 (* D. renderings: styles and tokens.  A token is a string; "NL" is a newline, "SP" a space. *)
@@ -176,9 +188,10 @@ StylesFull == {Default,
                [sep |-> ";", pad |-> TRUE, ea |-> TRUE, eb |-> TRUE, ab |-> TRUE, sg |-> TRUE, tx |-> TRUE, nm |-> "hex"],
                [sep |-> "NL", pad |-> FALSE, ea |-> TRUE, eb |-> FALSE, ab |-> FALSE, sg |-> TRUE, tx |-> FALSE, nm |-> "alt"],
                [sep |-> "NL", pad |-> TRUE, ea |-> FALSE, eb |-> TRUE, ab |-> TRUE, sg |-> FALSE, tx |-> TRUE, nm |-> "lead0"]}
-StylesFew == {Default,
-              [sep |-> ";", pad |-> TRUE, ea |-> TRUE, eb |-> TRUE, ab |-> TRUE, sg |-> TRUE, tx |-> TRUE, nm |-> "hex"],
-              [sep |-> "NL", pad |-> FALSE, ea |-> TRUE, eb |-> FALSE, ab |-> FALSE, sg |-> TRUE, tx |-> FALSE, nm |-> "alt"]}
+NLMix == [sep |-> "NL", pad |-> FALSE, ea |-> TRUE, eb |-> FALSE, ab |-> FALSE, sg |-> TRUE, tx |-> FALSE, nm |-> "alt"]
+\* near misses are rendered in fewer styles
+StylesFew == {Default, NLMix}
+             \cup (IF Wide THEN {[sep |-> ";", pad |-> TRUE, ea |-> TRUE, eb |-> TRUE, ab |-> TRUE, sg |-> TRUE, tx |-> TRUE, nm |-> "hex"]} ELSE {})
 
 \* spelling of a leaf.  Texts that are not identifiers are always quoted.
 Spell(id, st) ==
@@ -208,32 +221,88 @@ Close(st) == IF st.pad THEN <<"SP", "}">> ELSE <<"}">>
 CanImplicit(b) == IsRec(b) /\ b.attrs = <<>> /\ (Len(b.items) >= 2 \/ (Len(b.items) = 1 /\ b.items[1].slot))
 Implicit(b, st) == CanImplicit(b) /\ ~st.ab
 
-RECURSIVE Render(_, _)
-RECURSIVE JoinItems(_, _, _)
-RenderItem(i, st) == IF i.slot THEN Render(i.key, st) \o <<":">> \o (IF i.val = Ext THEN <<>> ELSE Render(i.val, st))
-                     ELSE Render(i.val, st)
-JoinItems(is, k, st) == IF k > Len(is) THEN <<>>
-                        ELSE (IF k > 1 THEN Sep(st) ELSE <<>>) \o RenderItem(is[k], st) \o JoinItems(is, k + 1, st)
-RenderAttr(a, st) ==
-    <<"@" , a.name>> \o
-    (CASE a.body = None -> (IF st.ea THEN <<"(", ")">> ELSE <<>>)
-       [] Implicit(a.body, st) -> <<"(">> \o JoinItems(a.body.items, 1, st) \o <<")">>
-       [] OTHER -> <<"(">> \o Render(a.body, st) \o <<")">>)
-RECURSIVE RenderAttrs(_, _, _)
-RenderAttrs(as, k, st) == IF k > Len(as) THEN <<>> ELSE RenderAttr(as[k], st) \o RenderAttrs(as, k + 1, st)
-\* `@a 1`: a record with attributes and a single item that is a leaf (or itself starts with an attribute)
-BareSingle(v, st) == /\ st.sg /\ v.attrs # <<>> /\ Len(v.items) = 1 /\ ~v.items[1].slot
-                     /\ (v.items[1].val.t = "leaf" \/ (IsRec(v.items[1].val) /\ v.items[1].val.attrs # <<>>))
-Render(v, st) ==
-    CASE v.t = "leaf" -> <<Spell(v.id, st)>>
-      [] v.t = "rec" ->
-           RenderAttrs(v.attrs, 1, st) \o
-           (IF v.items = <<>> THEN (IF v.attrs = <<>> \/ st.eb THEN <<"{", "}">> ELSE <<>>)
-            ELSE IF BareSingle(v, st) THEN <<"SP">> \o Render(v.items[1].val, st)
-            ELSE Open(st) \o JoinItems(v.items, 1, st) \o Close(st))
+\* ---- M: the lexical scan of HashParser (is_implicit_record, recon_parser/record/hash.rs) ----
+\* the characters the scan reacts to, for every token (string literals are scanned like any other text)
+ScanChars(tok) ==
+    CASE tok \in {",", ";", ":", "{", "}", "(", ")"} -> <<tok>>
+      [] tok = "\"x,y\"" -> <<",">>
+      [] tok = "\"k:v\"" -> <<":">>
+      [] tok = "\")\"" -> <<")">>
+      [] tok = "\"(\"" -> <<"(">>
+      [] tok = "\"}\"" -> <<"}">>
+      [] OTHER -> <<>>
+\* run on the text that follows `@name(` (the rest of the document): TRUE = "the body is an implicit record".
+\* Top level: `,` `;` `:` -> TRUE, `)` -> FALSE, `{` `(` open a nested level in which only brackets count.
+RECURSIVE Scan(_, _, _, _)
+Scan(toks, k, j, level) ==       \* j-th scan character of token k
+    IF k > Len(toks) THEN FALSE                                   \* ran out of input
+    ELSE LET cs == ScanChars(toks[k]) IN
+         IF j > Len(cs) THEN Scan(toks, k + 1, 1, level)
+         ELSE LET c == cs[j] IN
+              IF level = 0
+                THEN CASE c \in {",", ";", ":"} -> TRUE
+                       [] c \in {"{", "("} -> Scan(toks, k, j + 1, 1)
+                       [] c = ")" -> FALSE
+                       [] OTHER -> Scan(toks, k, j + 1, 0)          \* "}" is not a stop character at the top
+                ELSE CASE c \in {"{", "("} -> Scan(toks, k, j + 1, level + 1)
+                       [] c \in {"}", ")"} -> Scan(toks, k, j + 1, level - 1)
+                       [] OTHER -> Scan(toks, k, j + 1, level)
+Detected(following) == Scan(following, 1, 1, 0)
+
+HashLeafKey(id) == id     \* floats are hashed by bit pattern ("f0" and "fneg0" differ); numbers by value (one id per number)
+
+\* ---- rendering and hash events in one recursion ----
+\* RE(x, st, rest) = [toks |-> the tokens of x in style st,
+\*                    ev   |-> the events HashParser feeds to the hasher for x when `rest` follows x in the document,
+\*                    und  |-> some implicit attribute body in x is not recognised by the scan]
+\* The parser emits StartBody / EndRecord for a braced body and nothing for an implicit one; the hasher adds the pair
+\* after StartAttribute whenever its scan of the following text says "implicit record".
+RECURSIVE RE(_, _, _)
+RECURSIVE ItemsRE(_, _, _, _), AttrsRE(_, _, _, _)
+Leaf3(toks, ev) == [toks |-> toks, ev |-> ev, und |-> FALSE]
+ItemRE(i, st, rest) ==
+    IF ~i.slot THEN RE(i.val, st, rest)
+    ELSE LET val == IF i.val = Ext THEN Leaf3(<<>>, <<"ext">>) ELSE RE(i.val, st, rest)
+             key == RE(i.key, st, <<":">> \o val.toks \o rest)
+         IN [toks |-> key.toks \o <<":">> \o val.toks, ev |-> key.ev \o <<"SLOT">> \o val.ev, und |-> key.und \/ val.und]
+\* items k.. of a list whose last item is followed by `rest`
+ItemsRE(is, k, st, rest) ==
+    IF k > Len(is) THEN Leaf3(<<>>, <<>>)
+    ELSE LET tl == ItemsRE(is, k + 1, st, rest)
+             sep == IF k < Len(is) THEN Sep(st) ELSE <<>>
+             me == ItemRE(is[k], st, sep \o tl.toks \o rest)
+         IN [toks |-> me.toks \o sep \o tl.toks, ev |-> me.ev \o tl.ev, und |-> me.und \/ tl.und]
+AttrRE(a, st, rest) ==
+    CASE a.body = None -> Leaf3(<<"@", a.name>> \o (IF st.ea THEN <<"(", ")">> ELSE <<>>), <<"SA", a.name, "EA">>)
+      [] OTHER ->
+           LET after == <<")">> \o rest
+               body == IF Implicit(a.body, st) THEN ItemsRE(a.body.items, 1, st, after) ELSE RE(a.body, st, after)
+               det == Detected(body.toks \o after)
+           IN [toks |-> <<"@", a.name, "(">> \o body.toks \o <<")">>,
+               ev |-> <<"SA", a.name>> \o (IF det THEN <<"SB">> \o body.ev \o <<"ER">> ELSE body.ev) \o <<"EA">>,
+               und |-> body.und \/ (Implicit(a.body, st) /\ ~det)]
+AttrsRE(as, k, st, rest) ==
+    IF k > Len(as) THEN Leaf3(<<>>, <<>>)
+    ELSE LET tl == AttrsRE(as, k + 1, st, rest)
+             me == AttrRE(as[k], st, tl.toks \o rest)
+         IN [toks |-> me.toks \o tl.toks, ev |-> me.ev \o tl.ev, und |-> me.und \/ tl.und]
+\* `@a 1`: a record with attributes and a single item that is a leaf
+BareSingle(x, st) == st.sg /\ x.attrs # <<>> /\ Len(x.items) = 1 /\ ~x.items[1].slot /\ x.items[1].val.t = "leaf"
+RE(x, st, rest) ==
+    CASE x.t = "leaf" -> Leaf3(<<Spell(x.id, st)>>, <<HashLeafKey(x.id)>>)
+      [] x.t = "rec" ->
+           LET body == IF x.items = <<>> THEN Leaf3(IF x.attrs = <<>> \/ st.eb THEN <<"{", "}">> ELSE <<>>, <<>>)
+                       ELSE IF BareSingle(x, st)
+                              THEN LET one == RE(x.items[1].val, st, rest) IN
+                                   [toks |-> <<"SP">> \o one.toks, ev |-> one.ev, und |-> one.und]
+                       ELSE LET its == ItemsRE(x.items, 1, st, Close(st) \o rest) IN
+                            [toks |-> Open(st) \o its.toks \o Close(st), ev |-> its.ev, und |-> its.und]
+               as == AttrsRE(x.attrs, 1, st, body.toks \o rest)
+           IN [toks |-> as.toks \o body.toks, ev |-> as.ev \o <<"SB">> \o body.ev \o <<"ER">>, und |-> as.und \/ body.und]
+Render(x, st) == RE(x, st, <<>>).toks
 
 \* invalid texts: a corruption applied to the token sequence by the check
-Corruptions == {"drop_last_close", "drop_first_open", "extra_close", "extra_open", "stray_colon", "unterminated_string", "lone_at"}
+Corruptions == {"drop_last_close", "extra_open", "unterminated_front", "close_front", "bad_escape_front", "colon_front"}
 
 -----------------------------------------------------------------------------
 (* M. normal form: the value up to Value::eq.  A sequence of strings (explicit event stream). *)
@@ -259,62 +328,31 @@ KYItems(is, k) == IF k > Len(is) THEN <<>>
 KY(x) == CASE x.t = "leaf" -> <<x.id>>
            [] x.t = "rec" -> KYAttrs(x.attrs, 1) \o <<"SB">> \o KYItems(x.items, 1) \o <<"ER">>
 ValueKey(x) == KY(x)
+\* skeleton: the stream without the record / item markers.  Values with the same skeleton differ only in nesting - the
+\* candidates for being merged by a comparator that skips StartBody / EndRecord events.
+Skeleton(x) == SelectSeq(NF(x), LAMBDA e : e \notin {"SB", "ER", "IT"})
 
-(* M. what HashParser feeds to the hasher *)
-HashLeafKey(id) == id              \* floats are hashed by bit pattern: "f0" and "fneg0" differ; numbers by value: one id per number
+(* M. what HashParser feeds to the hasher, and whether an implicit body escaped its scan: see RE above *)
+HashEvents(x, st) == RE(x, st, <<>>).ev
+Undetected(x, st) == RE(x, st, <<>>).und
 
-\* the characters is_implicit_record reacts to, for every token (string literals are scanned like any other text)
-ScanChars(tok) ==
-    CASE tok \in {",", ";", ":", "{", "}", "(", ")"} -> <<tok>>
-      [] tok = "\"x,y\"" -> <<",">>
-      [] tok = "\"k:v\"" -> <<":">>
-      [] tok = "\")\"" -> <<")">>
-      [] tok = "\"(\"" -> <<"(">>
-      [] tok = "\"}\"" -> <<"}">>
-      [] OTHER -> <<>>
-RECURSIVE Flat(_, _)
-Flat(toks, k) == IF k > Len(toks) THEN <<>> ELSE ScanChars(toks[k]) \o Flat(toks, k + 1)
-\* is_implicit_record on the text that follows `@name(`: chars = scan characters of the body followed by ")"
-RECURSIVE Scan(_, _, _)
-Scan(chars, k, level) ==
-    IF k > Len(chars) THEN FALSE                                  \* ran out of input
-    ELSE LET c == chars[k] IN
-         IF level = 0
-           THEN CASE c \in {",", ";", ":"} -> TRUE
-                  [] c \in {"{", "("} -> Scan(chars, k + 1, 1)
-                  [] c = ")" -> FALSE
-                  [] OTHER -> Scan(chars, k + 1, 0)               \* "}" is not a stop character at the top
-           ELSE CASE c \in {"{", "("} -> Scan(chars, k + 1, level + 1)
-                  [] c \in {"}", ")"} -> Scan(chars, k + 1, level - 1)
-                  [] OTHER -> Scan(chars, k + 1, level)
-Detected(bodyToks) == Scan(Flat(bodyToks, 1) \o <<")">>, 1, 0)
+(* M. what the comparator can tell apart.  ValueValidator compares, frame by frame, only the SIZES of the item      *)
+(* collections, adding up nested frames that have no key (comparator/mod.rs, PartialEq for ValueValidator), so it    *)
+(* cannot see WHERE a nested record without attributes begins among the items that precede it: { x, {y} } and        *)
+(* { {x, y} } are the same to it.  CoarseForm moves the opening of every such nested record to the far left.        *)
+RECURSIVE Coarse(_)
+RECURSIVE CoarseItems(_, _, _)
+CoarseItems(is, k, acc) ==
+    IF k > Len(is) THEN acc
+    ELSE LET it == IF is[k].slot THEN SItem(Coarse(is[k].key), Coarse(is[k].val)) ELSE VItem(Coarse(is[k].val)) IN
+         IF ~it.slot /\ IsRec(it.val) /\ it.val.attrs = <<>> /\ it.val.items # <<>> /\ acc # <<>>
+           THEN CoarseItems(is, k + 1, <<VItem(Rec(<<>>, acc \o it.val.items))>>)
+           ELSE CoarseItems(is, k + 1, Append(acc, it))
+Coarse(x) ==
+    CASE x.t = "rec" -> Rec([k \in 1..Len(x.attrs) |-> Attr(x.attrs[k].name, Coarse(x.attrs[k].body))], CoarseItems(x.items, 1, <<>>))
+      [] OTHER -> x
+CoarseForm(x) == NF(Coarse(x))
 
-RECURSIVE HE(_, _)
-RECURSIVE HEAttrs(_, _, _), HEItems(_, _, _)
-HEAttr(a, st) ==
-    <<"SA", a.name>> \o
-    (CASE a.body = None -> <<>>
-       [] Implicit(a.body, st) ->
-            \* the parser emits the items only; the hasher adds StartBody / EndRecord if its scan says "implicit record"
-            LET inner == HEItems(a.body.items, 1, st) IN
-            IF Detected(JoinItems(a.body.items, 1, st)) THEN <<"SB">> \o inner \o <<"ER">> ELSE inner
-       [] OTHER -> HE(a.body, st))
-    \o <<"EA">>
-HEAttrs(as, k, st) == IF k > Len(as) THEN <<>> ELSE HEAttr(as[k], st) \o HEAttrs(as, k + 1, st)
-HEItems(is, k, st) == IF k > Len(is) THEN <<>>
-                      ELSE (IF is[k].slot THEN HE(is[k].key, st) \o <<"SLOT">> ELSE <<>>) \o HE(is[k].val, st) \o <<"IT">> \o HEItems(is, k + 1, st)
-HE(v, st) == CASE v.t = "leaf" -> <<HashLeafKey(v.id)>>
-               [] v.t = "rec" -> HEAttrs(v.attrs, 1, st) \o <<"SB">> \o HEItems(v.items, 1, st) \o <<"ER">>
-HashEvents(v, st) == HE(v, st)
-
-\* diagnosis: does the rendering contain an implicit attribute body that the scan does not recognise?
-RECURSIVE Undetected(_, _)
-UndetAttrs(as, st) == \E k \in 1..Len(as) :
-                         \/ Implicit(as[k].body, st) /\ ~Detected(JoinItems(as[k].body.items, 1, st))
-                         \/ Undetected(as[k].body, st)
-Undetected(v, st) == /\ IsRec(v)
-                     /\ \/ UndetAttrs(v.attrs, st)
-                        \/ \E k \in 1..Len(v.items) : Undetected(v.items[k].val, st) \/ (v.items[k].slot /\ Undetected(v.items[k].key, st))
 RECURSIVE HasLeaf(_, _)
 HasLeaf(v, ids) == CASE v.t = "leaf" -> v.id \in ids
                      [] v.t = "rec" -> \/ \E k \in 1..Len(v.attrs) : HasLeaf(v.attrs[k].body, ids)
